@@ -75,6 +75,8 @@ def gen_cases(ctx):
                 for kind in ('sync', 'async'):
                     for strict in (True, False):
                         yield dict(part='batch', kind=kind, strict=strict, n=n, notif=False, via='call', entries=entries)
+                    if L <= n:
+                        yield dict(part='batch', kind=kind, strict=True, n=n, notif=False, via='call', entries=entries, custom=True)
                 # send() and a notification inside the batch: sync strict carries the load, others sampled by permutation docs
                 distinct = len({r for r, _ in entries}) == len(entries)
                 if distinct or L <= n:
@@ -107,6 +109,8 @@ def gen_cases(ctx):
                             if via == 'call' and req_id != 1:
                                 continue
                             yield dict(part='single', kind=kind, strict=strict, req_id=req_id, rel=rel, payload=payload, via=via)
+                            if via == 'call' and strict and payload != 'err-hier':
+                                yield dict(part='single', kind=kind, strict=strict, req_id=req_id, rel=rel, payload=payload, via=via, custom=True)
                 for j in range(len(JUNK)):
                     yield dict(part='single', kind=kind, strict=strict, req_id=1, junk=j, via='call')
 
@@ -149,7 +153,7 @@ def run_batch(c, rec):
     else:
         body = json.dumps(doc)
 
-    client = make_client(c['kind'], lambda text, is_notif, kw: body, strict=strict)
+    client = make_client(c['kind'], lambda text, is_notif, kw: body, strict=strict, custom=bool(c.get('custom')))
     batch = client.batch
     requests = None
     if c['via'] == 'call':
@@ -166,6 +170,11 @@ def run_batch(c, rec):
     rec.transitions += 1
     got = classify(out)
 
+    if c.get('custom'):
+        need = ['json_dumper', 'json_encoder', 'batch_request_class', 'request_class', 'json_loader', 'json_decoder', 'batch_response_class']
+        missing = [k for k in need if not client.uses.get(k)]
+        if missing:
+            return bad(rec, c, 'C08:batch:configured %s not used by the client' % '/'.join(missing), need, dict(client.uses))
     # the request that went out: one document, calls have ids 1..n in order
     if len(client.sent) != 1:
         return bad(rec, c, 'C08:batch:%d transport calls for one batch' % len(client.sent), 1, len(client.sent))
@@ -326,7 +335,7 @@ def run_single(c, rec):
             o['error'] = {'code': -32601, 'message': 'Method not found'}
         body = json.dumps(o)
     ckw = dict(error_cls=HierV1) if c.get('payload') == 'err-hier' else {}
-    client = make_client(c['kind'], lambda text, is_notif, kw: body, strict=strict, **ckw)
+    client = make_client(c['kind'], lambda text, is_notif, kw: body, strict=strict, custom=bool(c.get('custom')), **ckw)
     request = Request('m', [1], id=req_id)
     if c['via'] == 'call':
         out = drive(c["kind"], lambda: client.call('m', 1))
@@ -339,6 +348,11 @@ def run_single(c, rec):
     sent = json.loads(client.sent[0][0])
     if not typed_eq(sent.get('id'), req_id) or sent.get('method') != 'm':
         return bad(rec, c, 'C08:single:request document', req_id, sent)
+    if c.get('custom'):
+        need = ['json_dumper', 'json_encoder', 'request_class', 'json_loader', 'json_decoder', 'response_class']
+        missing = [k for k in need if not client.uses.get(k)]
+        if missing:
+            return bad(rec, c, 'C08:single:configured %s not used by the client' % '/'.join(missing), need, dict(client.uses))
     if 'junk' in c:
         rec.outcomes['single:junk:' + got[0]] += 1
         if got[0] != 'deser':
